@@ -9,7 +9,7 @@ import sys
 HERE = os.path.dirname(os.path.abspath(__file__))
 sys.path.insert(0, os.path.dirname(HERE))
 # the implementation under test is always /repo's current working tree
-sys.path.insert(0, "/repo/src")
+sys.path.insert(0, os.environ.get("VERIF_DEV_SRC", "/repo/src"))      # the override is for the seeded-change regression (worktrees) only
 os.environ.setdefault("PYTHONHASHSEED", "0")
 
 
